@@ -447,18 +447,27 @@ func leakComp(sc LeakScenario) leakResult {
 }
 
 type lcChild struct {
-	name string
-	lc   *lifecycle.StartStop
+	name        string
+	lc          *lifecycle.StartStop
+	lingerMs    int // Run returns this long after it was told to stop
+	failAfterMs int // > 0: Run returns an error after this time
 }
 
 func (c *lcChild) String() string { return c.name }
 func (c *lcChild) Run(ctx context.Context) error {
 	done := c.lc.Started()
 	defer done()
+	var fail <-chan time.Time
+	if c.failAfterMs > 0 {
+		fail = time.After(time.Duration(c.failAfterMs) * time.Millisecond)
+	}
 	select {
 	case <-ctx.Done():
 	case <-c.lc.StopCh():
+	case <-fail:
+		return fmt.Errorf("%s failed", c.name)
 	}
+	sleepMs(c.lingerMs)
 	return nil
 }
 func (c *lcChild) Stop()                  { c.lc.Stop() }
